@@ -80,3 +80,329 @@ Proof.
   - intros v H. exact (diag_op_len [qc 2 1; qc 3 2; qc (-1) 4] v H).
   - exact (diag_op_linear QcS_ring [qc 2 1; qc 3 2; qc (-1) 4]).
 Qed.
+
+(* =====================================================================================
+   C05-B: what the iterates ARE.  Proofs: KrylovMathVec.v, KrylovMathCG.v, KrylovMathGmres.v;
+   satisfiability of every hypothesis on concrete 3x3 SPD systems: KrylovMathQc.v.
+   ===================================================================================== *)
+From Amgcl Require Import AmgOrder KrylovMathVec KrylovMathCG KrylovMathGmres KrylovMathQc.
+From Coq Require Import QArith_base.
+Local Close Scope Q_scope.
+Local Open Scope S_scope.
+
+(* ---- CG.  x_k, r_k, p_k = the states of the textbook recurrence (KrylovMathCG.cgs_at); the model
+   of cg.hpp returns exactly x_{k_it} (first theorem).  nobreak k: the denominators <r_j, P r_j> and
+   <A p_j, p_j>, j < k, are non-zero; this holds as long as the residual is non-zero when A and P are
+   positive definite (C05_cg_no_breakdown_while_residual_nonzero). ---- *)
+Section CGField.
+Variable S : Scalar.
+Hypothesis Sft : Sfield S.
+Hypothesis Seqb : seqb_spec S.
+Hypothesis Sreal : forall x : S, sadj x = x.          (* real value type *)
+Variable n : nat.
+Variables A P : vec S -> vec S.
+Hypothesis A_len : forall v, length v = n -> length (A v) = n.
+Hypothesis P_len : forall v, length v = n -> length (P v) = n.
+Hypothesis A_sym : forall x y, length x = n -> length y = n -> rdot (A x) y = rdot x (A y).
+Hypothesis P_sym : forall x y, length x = n -> length y = n -> rdot (P x) y = rdot x (P y).
+Hypothesis A_lin : linear_on n A.
+Variables f x0 : vec S.
+Hypothesis Lf : length f = n.
+Hypothesis Lx0 : length x0 = n.
+
+Theorem C05_cg_model_returns_kth_iterate prm junk nr r w :
+  k_prologue norm_a prm f = Go nr -> cg A P prm f x0 junk = (KOk r, w) ->
+  k_it r <= p_maxiter prm /\ k_x r = xk A P f x0 (k_it r).
+Proof. exact (cg_model_returns_seq (F_R Sft) Seqb n A P A_len P_len A_lin prm f x0 junk nr r w Lf Lx0). Qed.
+
+(* the carried residual is the residual of the iterate *)
+Theorem C05_cg_residual_is_residual k : rk A P f x0 k = vsub f (A (xk A P f x0 k)).
+Proof. exact (rk_residual Sft n A P A_len P_len f x0 Lf Lx0 A_lin k). Qed.
+
+(* ALL earlier residuals are P-orthogonal, ALL earlier directions A-conjugate *)
+Theorem C05_cg_residuals_P_orthogonal k j : nobreak A P f x0 k -> j < k ->
+  rdot (rk A P f x0 k) (P (rk A P f x0 j)) = s0.
+Proof. exact (cg_residuals_P_orthogonal Sft Sreal n A P A_len P_len A_sym P_sym f x0 Lf Lx0 k j). Qed.
+
+Theorem C05_cg_directions_A_conjugate k j : nobreak A P f x0 k -> j < k ->
+  rdot (pk A P f x0 k) (A (pk A P f x0 j)) = s0.
+Proof. exact (cg_directions_A_conjugate Sft Sreal n A P A_len P_len A_sym P_sym f x0 Lf Lx0 k j). Qed.
+
+Theorem C05_cg_residual_orthogonal_to_directions k j : nobreak A P f x0 k -> j < k ->
+  rdot (rk A P f x0 k) (pk A P f x0 j) = s0.
+Proof. exact (cg_residual_orth_directions Sft Sreal n A P A_len P_len A_sym P_sym f x0 Lf Lx0 k j). Qed.
+
+(* x_k - x_0 lies in the span of p_0..p_{k-1}; Galerkin condition on that span *)
+Theorem C05_cg_iterate_in_span_of_directions k :
+  span n (Pgen A P f x0 k) (vsub (xk A P f x0 k) x0).
+Proof. exact (cg_iterate_in_span Sft n A P f x0 Lf Lx0 k). Qed.
+
+Theorem C05_cg_galerkin k : nobreak A P f x0 k ->
+  forall v, span n (Pgen A P f x0 k) v -> rdot (rk A P f x0 k) v = s0.
+Proof. exact (cg_galerkin Sft Sreal n A P A_len P_len A_sym P_sym f x0 Lf Lx0 k). Qed.
+
+(* the span of the directions is the Krylov space K_k(PA, P r_0) = span {(PA)^i P r_0 : i < k} *)
+Hypothesis P_lin : linear_on n P.
+Theorem C05_cg_directions_span_krylov_space k v : nobreak A P f x0 k ->
+  (span n (Pgen A P f x0 k) v <-> span n (Kgen A P f x0 k) v).
+Proof.
+  exact (fun NB => conj (cg_directions_in_krylov Sft n A P A_len P_len f x0 Lf Lx0 A_lin P_lin k v)
+                        (cg_krylov_in_directions Sft n A P A_len P_len f x0 Lf Lx0 A_lin P_lin k v NB)).
+Qed.
+
+(* A-norm optimality in algebraic form: the error e_k = x* - x_k is A-orthogonal to the span *)
+Variable xs : vec S.
+Hypothesis Lxs : length xs = n.
+Hypothesis Hxs : A xs = f.
+Theorem C05_cg_error_A_orthogonal k : nobreak A P f x0 k ->
+  forall v, span n (Pgen A P f x0 k) v -> rdot (ek A P f x0 xs k) (A v) = s0.
+Proof. exact (cg_error_A_orthogonal Sft Sreal n A P A_len P_len A_sym P_sym f x0 Lf Lx0 A_lin xs Lxs Hxs k). Qed.
+
+(* ordered field, A positive semi-definite: the A-norm of the error is minimal *)
+Hypothesis Ord : ordered S.
+Hypothesis A_psd : forall v, length v = n -> ole s0 (rdot v (A v)).
+Theorem C05_cg_A_norm_optimal k : nobreak A P f x0 k -> forall v, span n (Pgen A P f x0 k) v ->
+  ole (rdot (ek A P f x0 xs k) (A (ek A P f x0 xs k)))
+      (rdot (vadd (ek A P f x0 xs k) v) (A (vadd (ek A P f x0 xs k) v))).
+Proof. exact (cg_A_norm_optimal Sft Sreal n A P A_len P_len A_sym P_sym f x0 Lf Lx0 A_lin Ord xs Lxs Hxs A_psd k). Qed.
+
+(* THE optimality theorem on the model of cg.hpp: the x returned after k_it iterations has the
+   smallest A-norm error  err y = <x* - y, A (x* - y)>  in the affine space x0 + K_{k_it}(PA, P r0) *)
+Theorem C05_cg_minimises_A_norm_error_over_krylov_space prm junk nr r w :
+  k_prologue norm_a prm f = Go nr -> cg A P prm f x0 junk = (KOk r, w) ->
+  nobreak A P f x0 (k_it r) ->
+  span n (Kgen A P f x0 (k_it r)) (vsub (k_x r) x0) /\
+  forall y, length y = n -> span n (Kgen A P f x0 (k_it r)) (vsub y x0) ->
+    ole (err A xs (k_x r)) (err A xs y).
+Proof.
+  exact (fun Hp Hc NB => cg_model_minimises_A_norm Sft Seqb Sreal Ord n A P A_len P_len A_sym P_sym A_lin P_lin A_psd
+                           prm f x0 xs junk nr r w Lf Lx0 Lxs Hxs Hp Hc NB).
+Qed.
+
+(* no breakdown while the residual is non-zero, for positive definite A and P *)
+Theorem C05_cg_no_breakdown_while_residual_nonzero k :
+  (forall v, length v = n -> v <> zeron n -> olt s0 (rdot v (A v))) ->
+  (forall v, length v = n -> v <> zeron n -> olt s0 (rdot v (P v))) ->
+  (forall j, j < k -> rk A P f x0 j <> zeron n) -> nobreak A P f x0 k.
+Proof. exact (fun Apd Ppd => cg_nobreak_while_residual_nonzero Sft Sreal n A P A_len P_len A_sym P_sym f x0 Lf Lx0 Ord Apd Ppd k). Qed.
+End CGField.
+
+(* FULL STATEMENT (unproved): finite termination -- under the hypotheses of the last theorem,
+     nobreak A P f x0 n -> rk A P f x0 n = zeron n
+   (n mutually A-conjugate non-zero directions span S^n, and r_n is orthogonal to all of them).  Needs the
+   dimension theorem for S^n, which is not in the development; tested on the implementation
+   (tools/props/C05.py, finite termination and Galerkin oracles), and holds by computation on the
+   example system (KrylovMathQc.cg_example_terminates). *)
+
+(* ---- GMRES / FGMRES / LGMRES: one inner iteration ---- *)
+Section GmresField.
+Variable S : Scalar.
+Hypothesis Sft : Sfield S.
+Hypothesis Seqb : seqb_spec S.
+Hypothesis Sreal : forall x : S, sadj x = x.
+Hypothesis HofQ0 : sofQ (0 # 1)%Q = @s0 S.
+Hypothesis HofQ1 : sofQ (1 # 1)%Q = @s1 S.
+Variable n : nat.
+
+(* Arnoldi relation of the modified Gram-Schmidt loop: ring identity, no square root *)
+Theorem C05_gmres_mgs_arnoldi_relation (v : nat -> vec S) j ks H w :
+  NoDup ks -> length w = n -> (forall k, In k ks -> length (v k) = n) ->
+  let H' := fst (mgs v j ks H w) in let w' := snd (mgs v j ks H w) in
+  w = vadd w' (lsum n ks (fun k => vscal (H' k j) (v k))).
+Proof. exact (mgs_arnoldi (F_R Sft) Seqb n v j ks H w). Qed.
+
+(* against an orthonormal family the remainder is orthogonal and H(k,j) = <w, v_k> *)
+Theorem C05_gmres_mgs_orthogonalises (v : nat -> vec S) j ks H w :
+  NoDup ks -> length w = n -> (forall k, In k ks -> length (v k) = n) ->
+  (forall a b, In a ks -> In b ks -> rdot (v a) (v b) = if Nat.eqb a b then s1 else s0) ->
+  forall k, In k ks -> rdot (snd (mgs v j ks H w)) (v k) = s0 /\ fst (mgs v j ks H w) k j = rdot w (v k).
+Proof.
+  exact (fun ND Lw Lv ON k Hk => conj (mgs_orthogonal (F_R Sft) Seqb n v j ks H w ND Lw Lv ON k Hk)
+                                      (mgs_coefficients (F_R Sft) Seqb n v j ks H w ND Lw Lv ON k Hk)).
+Qed.
+
+(* one inner iteration of gmres.hpp: K v_j = sum_{k<=j} H(k,j) v_k + H(j+1,j) v_{j+1}
+   (K = P A or A P; H = the column as stored before the rotations; needs H(j+1,j) <> 0) *)
+Theorem C05_gmres_arnoldi_relation (A P : vec S -> vec S) left (w : @gm_ws S) j :
+  let Kv := fst (pspmv left A P (g_v w j)) in
+  length Kv = n -> (forall k, k <= j -> length (g_v w k) = n) -> arn_h w j Kv <> s0 ->
+  let w' := fst (gm_body A P left w j) in
+  Kv = vadd (vscal (arn_h w j Kv) (g_v w' (Datatypes.S j)))
+            (lsum n (seq 0 (Datatypes.S j)) (fun k => vscal (arn_H w j Kv k j) (g_v w' k))).
+Proof. exact (gm_body_arnoldi Sft Seqb n A P left w j). Qed.
+
+Theorem C05_fgmres_arnoldi_relation (A P : vec S -> vec S) (w : @gm_ws S) j :
+  let Az := A (P (g_v w j)) in
+  length Az = n -> (forall k, k <= j -> length (g_v w k) = n) -> arn_h w j Az <> s0 ->
+  let w' := fst (fg_body A P w j) in
+  Az = vadd (vscal (arn_h w j Az) (g_v w' (Datatypes.S j)))
+            (lsum n (seq 0 (Datatypes.S j)) (fun k => vscal (arn_H w j Az k j) (g_v w' k)))
+  /\ g_z w' j = P (g_v w j).
+Proof. exact (fg_body_arnoldi Sft Seqb n A P w j). Qed.
+
+(* the basis stays orthonormal, assuming sqrt exact at <w', w'> (i.e. H(j+1,j)^2 = <w', w'>) *)
+Theorem C05_gmres_basis_stays_orthonormal (w : @gm_ws S) j vnew0 :
+  length vnew0 = n -> (forall k, k <= j -> length (g_v w k) = n) ->
+  (forall a b, a <= j -> b <= j -> rdot (g_v w a) (g_v w b) = if Nat.eqb a b then s1 else s0) ->
+  arn_h w j vnew0 <> s0 ->
+  arn_h w j vnew0 * arn_h w j vnew0 = rdot (arn_w w j vnew0) (arn_w w j vnew0) ->
+  let w' := fst (arnoldi_tail w j vnew0) in
+  forall a b, a <= Datatypes.S j -> b <= Datatypes.S j ->
+    rdot (g_v w' a) (g_v w' b) = if Nat.eqb a b then s1 else s0.
+Proof. exact (arnoldi_tail_orthonormal Sft Seqb Sreal n w j vnew0). Qed.
+
+(* Givens rotations: cs^2 + sn^2 = 1 assuming sqrt exact at the ONE argument it is applied to;
+   the rotation annihilates the second entry (no sqrt assumption); app_rot preserves sums of squares *)
+Theorem C05_givens_coefficients_unit (dx dy : S) :
+  (is_zero dy = false -> sqrt_exact (rot_arg dx dy) /\ rot_arg dx dy <> s0) ->
+  unit_rot (fst (gen_rot dx dy)) (snd (gen_rot dx dy)).
+Proof. exact (gen_rot_unit Sft HofQ0 HofQ1 dx dy). Qed.
+
+Theorem C05_givens_annihilates (dx dy : S) :
+  (is_zero dy = false -> sltb (sabs dx) (sabs dy) = false -> dx <> s0) ->
+  snd (app_rot dx dy (fst (gen_rot dx dy)) (snd (gen_rot dx dy))) = s0.
+Proof. exact (gen_rot_annihilates Sft Seqb HofQ0 HofQ1 dx dy). Qed.
+
+Theorem C05_givens_preserves_sum_of_squares (dx dy cs sn : S) : unit_rot cs sn ->
+  sq (fst (app_rot dx dy cs sn)) + sq (snd (app_rot dx dy cs sn)) = sq dx + sq dy.
+Proof. exact (app_rot_isometry Sft Sreal dx dy cs sn). Qed.
+
+(* ordered field: the residual estimates |s_1|, |s_2|, ... the inner loop compares with eps never
+   increase (s as after fill(s, 0); s[0] = norm_r), as long as the stored rotations are unit;
+   body = gm_body / fg_body / lg_body (KrylovMathGmres.{gm,fg,lg}_body_tail) *)
+Hypothesis Ord : ordered S.
+Theorem C05_givens_argument_nonzero (dx dy : S) : rot_arg dx dy <> s0.
+Proof. exact (rot_arg_neq0 Sft Ord dx dy). Qed.
+
+Theorem C05_gmres_residual_estimate_monotone (A P : vec S -> vec S) left (w : @gm_ws S) m :
+  (forall l, 0 < l -> g_s w l = s0) ->
+  (forall i, i < m -> unit_rot (g_cs (gm_iter (gm_body A P left) (Datatypes.S i) w) i)
+                               (g_sn (gm_iter (gm_body A P left) (Datatypes.S i) w) i)) ->
+  forall i, i < m ->
+    snd (gm_body A P left (gm_iter (gm_body A P left) i w) i)
+      = sabs (g_s (gm_iter (gm_body A P left) (Datatypes.S i) w) (Datatypes.S i)) /\
+    sq (g_s (gm_iter (gm_body A P left) (Datatypes.S i) w) i)
+      + sq (g_s (gm_iter (gm_body A P left) (Datatypes.S i) w) (Datatypes.S i))
+      = sq (g_s (gm_iter (gm_body A P left) i w) i) /\
+    ole (sq (g_s (gm_iter (gm_body A P left) (Datatypes.S i) w) (Datatypes.S i)))
+        (sq (g_s (gm_iter (gm_body A P left) i w) i)).
+Proof. exact (gm_estimate_monotone Sft Sreal Ord (gm_body A P left) (gm_body_tail A P left) w m). Qed.
+
+(* on the loop function: wherever the inner loop stops, its estimate is bounded by norm_r *)
+Theorem C05_gmres_inner_loop_estimate_bounded (A P : vec S -> vec S) left maxiter M eps fuel (w : @gm_ws S) it :
+  let r := gm_inner (gm_body A P left) maxiter M eps fuel w 0 it in
+  (forall l, 0 < l -> g_s w l = s0) ->
+  (forall i, i < n_j r -> unit_rot (g_cs (gm_iter (gm_body A P left) (Datatypes.S i) w) i)
+                                   (g_sn (gm_iter (gm_body A P left) (Datatypes.S i) w) i)) ->
+  0 < n_j r /\ ole (sq (g_s (n_ws r) (n_j r))) (sq (g_s w 0)).
+Proof.
+  exact (gm_inner_estimate_le_initial Sft Sreal Ord (gm_body A P left) (gm_body_tail A P left) maxiter M eps fuel w it).
+Qed.
+End GmresField.
+
+(* FULL STATEMENT (unproved): minimal residual.  For one restart cycle started at x with
+   r0 = (P)(f - A x), beta = ||r0|| <> 0, with sqrt exact at every argument it is applied to (so that
+   the basis v_0..v_j is orthonormal and all rotations are unit) and no breakdown (H(i+1,i) <> 0, i < j):
+     for every y : nat -> S,   || r0 - K (sum_{i<j} y_i v_i) ||^2  >=  s_j^2,
+     with equality for y = backsub H (rev (seq 0 j)) s  (the update the code applies),
+   hence the true residual norm of the iterate returned with maxiter = j equals |s_j| and is
+   non-increasing in j.  Proved above: the Arnoldi relation, orthonormality, unit rotations, annihilation
+   and the monotonicity of |s_j|; not proved: the least-squares argument that links |s_j| with the
+   true residual (needs the product of the rotations as an isometry of S^{j+1}).  Tested on the
+   implementation: tools/props/C05.py (monotone returned residual; reference comparison). *)
+
+(* ---- closed instances at the exact rationals ---- *)
+Theorem C05_cg_minimises_A_norm_error_over_krylov_space_Qc n (A P : vec QcS -> vec QcS) f x0 xs prm junk nr r w :
+  (forall v, length v = n -> length (A v) = n) -> (forall v, length v = n -> length (P v) = n) ->
+  (forall x y, length x = n -> length y = n -> rdot (A x) y = rdot x (A y)) ->
+  (forall x y, length x = n -> length y = n -> rdot (P x) y = rdot x (P y)) ->
+  linear_on n A -> linear_on n P -> length f = n -> length x0 = n -> length xs = n -> A xs = f ->
+  (forall v, length v = n -> ole s0 (rdot v (A v))) ->
+  k_prologue norm_a prm f = Go nr -> cg A P prm f x0 junk = (KOk r, w) ->
+  nobreak A P f x0 (k_it r) ->
+  span n (Kgen A P f x0 (k_it r)) (vsub (k_x r) x0) /\
+  forall y, length y = n -> span n (Kgen A P f x0 (k_it r)) (vsub y x0) ->
+    ole (err A xs (k_x r)) (err A xs y).
+Proof.
+  exact (fun HA HP SA SP LA LP Lf Lx Lxs Hxs Apsd =>
+    C05_cg_minimises_A_norm_error_over_krylov_space QcS QcS_field QcS_eqb QcS_real n A P HA HP SA SP LA f x0 Lf Lx LP
+      xs Lxs Hxs QcS_ordered' Apsd prm junk nr r w).
+Qed.
+Print Assumptions C05_cg_minimises_A_norm_error_over_krylov_space_Qc.
+
+Theorem C05_cg_residuals_P_orthogonal_Qc n (A P : vec QcS -> vec QcS) f x0 k j :
+  (forall v, length v = n -> length (A v) = n) -> (forall v, length v = n -> length (P v) = n) ->
+  (forall x y, length x = n -> length y = n -> rdot (A x) y = rdot x (A y)) ->
+  (forall x y, length x = n -> length y = n -> rdot (P x) y = rdot x (P y)) ->
+  length f = n -> length x0 = n -> nobreak A P f x0 k -> j < k ->
+  rdot (rk A P f x0 k) (P (rk A P f x0 j)) = s0 /\ rdot (pk A P f x0 k) (A (pk A P f x0 j)) = s0.
+Proof.
+  exact (fun HA HP SA SP Lf Lx NB Hj =>
+    conj (C05_cg_residuals_P_orthogonal QcS QcS_field QcS_real n A P HA HP SA SP f x0 Lf Lx k j NB Hj)
+         (C05_cg_directions_A_conjugate QcS QcS_field QcS_real n A P HA HP SA SP f x0 Lf Lx k j NB Hj)).
+Qed.
+Print Assumptions C05_cg_residuals_P_orthogonal_Qc.
+
+Theorem C05_gmres_residual_estimate_monotone_Qc (A P : vec QcS -> vec QcS) left (w : @gm_ws QcS) m :
+  (forall l, 0 < l -> g_s w l = s0) ->
+  (forall i, i < m -> unit_rot (g_cs (gm_iter (gm_body A P left) (Datatypes.S i) w) i)
+                               (g_sn (gm_iter (gm_body A P left) (Datatypes.S i) w) i)) ->
+  forall i, i < m ->
+    ole (sq (g_s (gm_iter (gm_body A P left) (Datatypes.S i) w) (Datatypes.S i)))
+        (sq (g_s (gm_iter (gm_body A P left) i w) i)).
+Proof.
+  exact (fun Z U i Hi => proj2 (proj2 (C05_gmres_residual_estimate_monotone QcS QcS_field QcS_real QcS_ordered' A P left w m Z U i Hi))).
+Qed.
+Print Assumptions C05_gmres_residual_estimate_monotone_Qc.
+
+Print Assumptions C05_cg_model_returns_kth_iterate.
+Print Assumptions C05_cg_residual_is_residual.
+Print Assumptions C05_cg_residual_orthogonal_to_directions.
+Print Assumptions C05_cg_iterate_in_span_of_directions.
+Print Assumptions C05_cg_galerkin.
+Print Assumptions C05_cg_directions_span_krylov_space.
+Print Assumptions C05_cg_error_A_orthogonal.
+Print Assumptions C05_cg_A_norm_optimal.
+Print Assumptions C05_cg_no_breakdown_while_residual_nonzero.
+Print Assumptions C05_gmres_mgs_arnoldi_relation.
+Print Assumptions C05_gmres_mgs_orthogonalises.
+Print Assumptions C05_gmres_arnoldi_relation.
+Print Assumptions C05_fgmres_arnoldi_relation.
+Print Assumptions C05_gmres_basis_stays_orthonormal.
+Print Assumptions C05_givens_coefficients_unit.
+Print Assumptions C05_givens_annihilates.
+Print Assumptions C05_givens_preserves_sum_of_squares.
+Print Assumptions C05_givens_argument_nonzero.
+Print Assumptions C05_gmres_inner_loop_estimate_bounded.
+
+(* ---- every hypothesis above is satisfiable on a concrete 3x3 SPD system (KrylovMathQc.v) ---- *)
+Example C05_cg_math_hypotheses_satisfiable :
+  Sfield QcS /\ (forall x : QcS, sadj x = x) /\ ordered QcS /\
+  (forall v, length v = 3 -> length (A3 v) = 3) /\ (forall v, length v = 3 -> length (P3 v) = 3) /\
+  (forall x y, length x = 3 -> length y = 3 -> rdot (A3 x) y = rdot x (A3 y)) /\
+  (forall x y, length x = 3 -> length y = 3 -> rdot (P3 x) y = rdot x (P3 y)) /\
+  linear_on 3 A3 /\ linear_on 3 P3 /\ length f3 = 3 /\ length x03 = 3 /\ length xs3 = 3 /\ A3 xs3 = f3 /\
+  (forall v, length v = 3 -> ole s0 (rdot v (A3 v))) /\
+  nobreak A3 P3 f3 x03 3.
+Proof. exact cg_hypotheses_satisfiable. Qed.
+Example C05_cg_no_breakdown_hypotheses_satisfiable :
+  (forall v, length v = 3 -> v <> zeron 3 -> olt s0 (rdot v (A3 v))) /\
+  (forall v, length v = 3 -> v <> zeron 3 -> olt s0 (rdot v (P3 v))) /\
+  (forall j, j < 3 -> rk A3 P3 f3 x03 j <> zeron 3).
+Proof. exact cg_nobreak_hypotheses_satisfiable. Qed.
+Example C05_cg_example_reaches_solution : err A3 xs3 (xk A3 P3 f3 x03 3) = s0 /\ xk A3 P3 f3 x03 3 = xs3.
+Proof. exact cg_example_terminates. Qed.
+Example C05_gmres_rotation_hypotheses_satisfiable :
+  is_zero (qc 4 1 : QcS) = false /\ sqrt_exact (rot_arg (qc 3 1) (qc 4 1)) /\ rot_arg (qc 3 1 : QcS) (qc 4 1) <> s0 /\
+  unit_rot (fst (gen_rot (qc 3 1 : QcS) (qc 4 1))) (snd (gen_rot (qc 3 1 : QcS) (qc 4 1))).
+Proof. exact gmres_rotation_hypotheses_satisfiable. Qed.
+Example C05_gmres_monotone_hypotheses_satisfiable :
+  (forall l, 0 < l -> g_s wG l = s0) /\
+  (forall i, i < 2 -> unit_rot (g_cs (gm_iter bodyG (Datatypes.S i) wG) i) (g_sn (gm_iter bodyG (Datatypes.S i) wG) i)).
+Proof. exact (conj wG_tail wG_units). Qed.
+Example C05_gmres_arnoldi_hypotheses_satisfiable :
+  let Kv := fst (pspmv false AG Pid (g_v wG 0)) in
+  length Kv = 3 /\ (forall k, k <= 0 -> length (g_v wG k) = 3) /\ arn_h wG 0 Kv <> s0 /\
+  (forall a b, a <= 0 -> b <= 0 -> rdot (g_v wG a) (g_v wG b) = if Nat.eqb a b then s1 else s0) /\
+  arn_h wG 0 Kv * arn_h wG 0 Kv = rdot (arn_w wG 0 Kv) (arn_w wG 0 Kv).
+Proof. exact gmres_arnoldi_hypotheses_satisfiable. Qed.
